@@ -32,7 +32,20 @@ struct Shared {
     logs: Mutex<Vec<ConnLog>>,
 }
 
-fn free_port() -> u16 {
+/// A port for the server of this scenario.  Many kimpl processes run side by side: a port picked with bind(0) and released again can
+/// be handed to another process before our server binds it (two servers then share the scenario's connections — seen once as a
+/// "handler error did not end the connection" false alarm).  Each process therefore draws from its own block of 60 ports below the
+/// ephemeral range and takes the next one that can be bound.
+pub fn free_port() -> u16 {
+    use std::sync::atomic::{AtomicU32, Ordering};
+    static NEXT: AtomicU32 = AtomicU32::new(0);
+    let base = 12000 + (std::process::id() % 300) * 60;
+    for _ in 0..60 {
+        let p = (base + NEXT.fetch_add(1, Ordering::SeqCst) % 60) as u16;
+        if TcpListener::bind(("127.0.0.1", p)).is_ok() {
+            return p;
+        }
+    }
     let l = TcpListener::bind("127.0.0.1:0").unwrap();
     l.local_addr().unwrap().port()
 }
